@@ -1,7 +1,9 @@
 """C13 — UDP flows: ordered exactly-once task handling over one stable, leak-free endpoint.
 
 prove  : lake build DaeVerif.C13.Props (+ axiom audit, forbidden-construct scan)
-tie    : harness/overlay/control/c13_*.go run the REAL udp_task_pool.go (schedule replay through the
+tie    : translators/c13disp regenerates production's UDP ingress statements (Serve: batch loop, processPacket) and the
+         harness runs them on the real batch reader in front of the real task pool (stream c13_ing);
+         harness/overlay/control/c13_*.go run the REAL udp_task_pool.go (schedule replay through the
          `verif` yield points), udp_conn_state_tracker.go, control_plane_drain.go, udp_flow.go and
          udp_endpoint_pool.go; lean/DaeVerif/C13/Main.lean evaluates the same op lines on the models
          the theorems are about; outputs are diffed line by line
@@ -54,11 +56,20 @@ REQUIRED = [
     "DaeVerif.C13.Props.same_flow_same_endpoint",
     "DaeVerif.C13.Props.first_packet_establishes_endpoint",
     "DaeVerif.C13.Props.ingress_taken_buffer_never_rewritten",
+    # (a') bounded progress and the ingress composition
+    "DaeVerif.C13.Props.tq_head_runs_within_five_convoy_steps",
+    "DaeVerif.C13.Props.tq_running_task_finishes_next_step",
+    "DaeVerif.C13.Props.ingress_runs_in_arrival_order",
+    "DaeVerif.C13.Props.ingress_flow_dispatched_one_way",
+    "DaeVerif.C13.Props.ingress_mapped_peer_same_flow",
+    "DaeVerif.C13.Props.ingress_spec_flow_order",
+    "DaeVerif.C13.Props.route_scripted_dials_refine_handle",
+    "DaeVerif.C13.Props.route_recent_dial_failure_drops_without_dial",
 ]
 
-STREAMS = ["c13_tq", "c13_trk", "c13_krn", "c13_drn", "c13_key", "c13_ep", "c13_epc", "c13_lock", "c13_hp", "c13_ib"]
-HARNESS = ["control/c13_test.go", "control/c13_seq_test.go", "control/c13_ep_test.go", "control/c13_hp_test.go"]
-RESET = {"c13_tq": "tq reset", "c13_trk": "trk reset", "c13_krn": "krn reset", "c13_drn": "drn reset", "c13_ep": "ep reset", "c13_epc": "ep reset", "c13_lock": "epc reset", "c13_hp": "hp reset", "c13_ib": "ib reset"}
+STREAMS = ["c13_tq", "c13_trk", "c13_krn", "c13_drn", "c13_key", "c13_ep", "c13_epc", "c13_lock", "c13_hp", "c13_ib", "c13_ing"]
+HARNESS = ["control/c13_test.go", "control/c13_seq_test.go", "control/c13_ep_test.go", "control/c13_hp_test.go", "control/c13_ing_test.go"]
+RESET = {"c13_ing": "ing reset", "c13_tq": "tq reset", "c13_trk": "trk reset", "c13_krn": "krn reset", "c13_drn": "drn reset", "c13_ep": "ep reset", "c13_epc": "ep reset", "c13_lock": "epc reset", "c13_hp": "hp reset", "c13_ib": "ib reset"}
 
 
 # generator floors (applied in every tier; the values are sized for quick, thorough is far above): a run that
@@ -73,10 +84,36 @@ FLOORS = {
     "ep.split.create": 80, "ep.split.create.invalInside": 80, "ep.split.janitor": 30, "ep.split.janitor.opBeforeClose": 30,
     "ep.write.err.fail": 40, "ep.goc.notPacketConn.dialled": 20, "ep.reply": 200, "ep.track": 100,
     "hp.outcome.reused": 200, "hp.outcome.dialled": 200, "hp.pkt.withWriteFailures": 100, "hp.kill": 30, "hp.inval": 20, "hp.seq.healthAwareGroup": 20,
+    "hp.pkt.dialFailed": 40, "hp.pkt.blockedByNegativeCache": 10, "hp.adv": 60,
+    "ep.goc.secondDialInCall.new": 30, "ep.goc.secondDialInCall.err-dial": 50, "ep.goc.transientLocalError.err-dial": 40,
     "krn.window": 60, "krn.coreClose": 5, "krn.opThroughClosedCore": 20,
     "ep.tdone": 100, "ep.split.create.tdoneInside": 15, "ep.split.create.anyOpAfterPublish": 60, "ep.resetpool": 40,
     "ib.take": 80, "ib.read": 200, "key.scope.controlPlaneRouting": 300,
+    # ingress (production's batch loop + processPacket in front of the real task pool)
+    "ing.dgram.ordered": 1000, "ing.dgram.direct": 300, "ing.dgram.peerMapped": 200, "ing.dgram.dstMapped": 200,
+    "ing.dgram.slowTask": 300, "ing.dgram.noPeerAddress": 5, "ing.seq.overflowReached": 3, "ing.flow.128orMoreTasks": 3,
+    "ing.flow.queueRecreatedAfterIdleGC": 8, "ing.between.released": 50, "ing.between.idlePeriod": 20,
 }
+
+
+def ingress_overlay(ctx):
+    """Production's UDP ingress statements of (*ControlPlane).Serve (the processPacket closure around the packet
+    task, and the batch-read loop), regenerated from /repo's current control_plane.go by translators/c13disp.
+    Fails closed: when an anchor moved there is no copy to fall back on -> None (the check exits 2)."""
+    from verifkit import sh, go_env, VERIF, REPO
+    gen = os.path.join(ctx.out, "gen")
+    os.makedirs(gen, exist_ok=True)
+    outp = os.path.join(gen, "c13ingress.go")
+    if os.path.exists(outp):
+        os.unlink(outp)
+    rc, out, dt = sh(["go", "run", "main.go", os.path.join(REPO, "control"), outp],
+                     cwd=os.path.join(VERIF, "translators", "c13disp"), env=go_env(), timeout=600)
+    ctx.log.write(f"$ c13disp [{dt:.1f}s rc={rc}] {out}\n")
+    if rc != 0 or not os.path.exists(outp):
+        ctx.say("TRANSLATOR-FAILED c13disp (the ingress statements of Serve could not be located; no fallback copy is used):",
+                out.strip()[-400:])
+        return None
+    return {os.path.join(REPO, "control", "zz_verif_c13ingress.go"): outp}
 
 
 def segment(ops, impl, lineno, reset_prefix):
@@ -134,6 +171,30 @@ def tq_oracle(ctx, ops, impl):
     return n_sched, n_tasks, sigs
 
 
+def ing_oracle(ctx, ops, impl):
+    """implementation-side (independent of the model): every datagram's task ran exactly once, and the tasks a
+    queue ran are in the order their datagrams were read from the socket (ids increase)."""
+    n = 0
+    bounds = [i for i, o in enumerate(ops) if o.startswith("ing reset")] + [len(ops)]
+    for a, b in zip(bounds, bounds[1:]):
+        for o, im in zip(ops[a:b], impl[a:b]):
+            bad = None
+            if o.startswith("ing dgram "):
+                n += 1
+                m = re.search(r"runs=(\d+)", im)
+                if not m or m.group(1) != "1":
+                    bad = f"the task of datagram {o.split()[2]} ran `{im}` (expected exactly once)"
+            elif o.startswith("ing log ") and im != "-":
+                ids = [int(x) for x in im.split(",")]
+                if any(x >= y for x, y in zip(ids, ids[1:])):
+                    bad = f"flow {o[8:]}: tasks ran in the order {im[:200]}, not in the order the datagrams were read"
+            if bad:
+                ctx.report("ingress (real code): " + bad,
+                           {"stream": "c13_ing", "sequence": [f"{x}  =>  {y}" for x, y in zip(ops[a:b], impl[a:b])][:600]})
+                return n
+    return n
+
+
 def ep_oracle(ctx, ops, impl):
     """implementation-side: no transport is ever closed twice; after the final quiet period every dialled
     endpoint is closed exactly once, the pool is empty, no drain ticket and no tracked tuple is left."""
@@ -186,6 +247,7 @@ def run(ctx):
     ctx.trusted += [
         "Go runtime: goroutine scheduling fairness, channel / sync.Map / sync.Mutex / atomic semantics as assumed by the model's atomic steps; sync.Pool modelled as a bag (Get = any element or a fresh channel)",
         "testing/synctest (virtual time and quiescence detection for the schedule replays and the pool's timers)",
+        "translators/c13disp (go/ast): copies the statements of Serve's processPacket closure around the packet task, and the batch-read loop, verbatim from the current control_plane.go into two functions (fails closed when an anchor moves); what the packet task does (routing lookup + handlePkt) is replaced by the harness' recording body and is tied separately (c13_hp)",
         "the `verif` yield points (control/verif_hooks_on.go) park goroutines only between the shared-memory accesses the model treats as separate steps; segments between two yield points with more than one access are listed in design_notes/C13.md",
         "fake dialers / transport conns / reply handlers of the harness stand for real proxies and sockets; the kernel conn-state map is a real eBPF hash map created with ebpf.NewMap (needs CAP_BPF; without it the check exits 2 with HARNESS-ENV) driven through the production ReleaseUdpConnStateTuples / BpfMapBatchDelete; the ingress-batch reader is the production one on a fake batch socket",
     ]
@@ -194,6 +256,7 @@ def run(ctx):
         "endpoint pool: operations are modelled as atomic (sequential specification) plus the split steps of invalidation, retire, creation (before / after publish) and the janitor's remove->close window, in which the harness parks ONE goroutine at a time and issues other operations; the release window of ReleaseUdpConnStateTuples is stepped the same way; two further windows (concurrent first packets, retire vs re-creation) and the lock structure of GetOrCreate for one key are replayed on the real clock and compared in linearisation order; two half-way calls at once are not generated; direct (non-proxy) dialers only",
         "handlePkt is executed with sniffing switched off for the packet, an empty sniffed domain, user-defined outbounds and one healthy dialer; MaxRetry and the sniff-eligible / direct-dispatch port sets are read off the code and handed to the model (tuning constants, not part of the property)",
         "same_flow_same_endpoint is stated for packets of a flow whose endpoint was dialled for that destination (Carries); a source-only endpoint dialled for another destination does not bind a flow that later becomes destination-bound (design note, reading R1), and with scope-sensitive routing the source-only key carries outbound/mark as well (R2)",
+        "ingress: ONE reader goroutine per listener socket dispatches the datagrams (the single for-loop of Serve); the single-datagram read loop (dual-stack listener) is not executed, only the batch loop; direct-dispatch flows (DNS, SIP/RTP, STUN ports) are unordered by design",
         "tuple tracker theorems assume the client discipline (release/forget only what was retained), which the endpoint model follows",
     ]
     ctx.prove(["DaeVerif.C13.Props"], ["DaeVerif.C13.Props"], ["DaeVerif/C13/*.lean"], extra_targets=["c13drv"])
@@ -201,7 +264,10 @@ def run(ctx):
 
     # real-bpf build variant (synthetic bpf2go file, no dae_stub_ebpf): BpfMapBatchDelete is the production one
     fake = ctx.fake_bpf_overlay()
-    binp = fake and ctx.go_test_build("control", HARNESS, "c13", tags="verif", extra_overlay=fake)
+    ing = ingress_overlay(ctx)
+    if not fake or not ing:
+        return 2
+    binp = ctx.go_test_build("control", HARNESS, "c13", tags="verif", extra_overlay={**fake, **ing})
     if not binp:
         return 2
     rc, out = ctx.run_harness(binp, "TestVerifC13", timeout=1500)
@@ -261,6 +327,9 @@ def run(ctx):
             ctx.cov["tq_schedules"] = n_sched
             ctx.cov["tq_tasks_checked_exactly_once_in_order"] = n_tasks
             distinct |= {("tq", s) for s in sigs}
+        elif name == "c13_ing":
+            ctx.cov["ing_datagrams_checked_exactly_once_in_arrival_order"] = ing_oracle(ctx, ops, impl)
+            distinct |= {("ing", o, i) for o, i in zip(ops, impl)}
         elif name == "c13_ep":
             ctx.cov["ep_sequences"] = ep_oracle(ctx, ops, impl)
             distinct |= {("ep", o, i) for o, i in zip(ops, impl) if not o.startswith("ep st")}
